@@ -86,6 +86,18 @@ def r_igmp (first4, rest):
   m = first4[:2] + b'\x00\x00' + rest
   return m[:2] + struct.pack("!H", R.csum(m)) + m[4:]
 
+def igmp_v3_record (rtype, group, sources=(), aux=b'', fmt="!BBH"):
+  """IGMPv3 group record (RFC 3376 4.2.4 ff.).  fmt "<BBH" writes the source count in little-endian order
+  (not RFC; used by C15 as an extra, deliberately foreign dialect)."""
+  assert len(aux) % 4 == 0
+  return struct.pack(fmt, rtype, len(aux) // 4, len(sources)) + group + b''.join(sources) + aux
+
+def igmp_v3_records (n, fmt="!BBH"):
+  recs = [igmp_v3_record(1, ip4("239.1.2.3"), [A1, A2], fmt=fmt),
+          igmp_v3_record(2, ip4("239.1.2.4"), [ip4("10.0.0.3"), ip4("10.0.0.4")], aux=b'AUX!', fmt=fmt),
+          igmp_v3_record(4, ip4("239.1.2.5"), [ip4("10.0.0.5")], aux=b'AUXDATA2', fmt=fmt)]
+  return recs[:n]
+
 def ph4 (proto, src=A1, dst=A2):
   return lambda n: R.pseudo4(src, dst, proto, n)
 
@@ -226,8 +238,13 @@ def corpus ():
   add("igmp_v2_report", e4(r_igmp(b'\x16\x00', ip4("239.1.2.3")), 2, dst=ip4("239.1.2.3"), ttl=1), "ethernet/ipv4/igmp(v2 report)")
   add("igmp_v3_report", e4(r_igmp(b'\x22\x00', struct.pack("!HH", 0, 1) + struct.pack("!BBH", 4, 0, 0) + ip4("239.1.2.3")),
                            2, dst=ip4("224.0.0.22"), ttl=1, options=b'\x94\x04\x00\x00'), "ethernet/ipv4/igmp(v3 report)")
+  # IGMPv3 reports with several group records, with source lists and auxiliary data (RFC 3376 4.2)
+  v3rep = lambda recs: e4(r_igmp(b'\x22\x00', struct.pack("!HH", 0, len(recs)) + b''.join(recs)), 2,
+                          dst=ip4("224.0.0.22"), ttl=1, tos=0xc0, options=b'\x94\x04\x00\x00')
+  add("igmp_v3_report_2rec", v3rep(igmp_v3_records(2)), "ethernet/ipv4/igmp(v3 report, 2 group records, sources, aux data)")
+  add("igmp_v3_report_3rec", v3rep(igmp_v3_records(3)), "ethernet/ipv4/igmp(v3 report, 3 group records, sources, aux data)")
   inner4 = iu4(pay, src=ip4("192.168.0.1"), dst=ip4("192.168.0.2"))
-  add("gre_ipv4", e4(gre_hdr(0x0800, payload=inner4), 47), "ethernet/ipv4/gre/ipv4/udp")
+  add("gre_ipv4",e4(gre_hdr(0x0800, payload=inner4), 47), "ethernet/ipv4/gre/ipv4/udp")
   add("gre_csum_key_seq_eth", e4(gre_hdr(0x6558, csum=True, key=0xdeadbeef, seq=7, payload=r_eth(inner4, 0x0800)), 47),
       "ethernet/ipv4/gre(csum,key,seq)/ethernet/ipv4/udp")
   add("gre_routing", e4(gre_hdr(0x88b5, routing=struct.pack("!HBB", 0x0800, 0, 4) + A2 + b'\0\0\0\0', payload=pay), 47),
@@ -240,6 +257,23 @@ def corpus ():
                                    + b'\x33\x04\x00\x00\x0e\x10\x36\x04' + A1 + b'\x3a\x04\x00\x00\x07\x08'
                                    + b'\x3b\x04\x00\x00\x0c\x4e\x1c\x04\x0a\x00\x00\xff\x0f\x03lan\x00\xff',
                                    yi=A2, si=A1, sname=b'srv', file=b'pxelinux.0'), 67, 68), 17), "ethernet/ipv4/udp/dhcp(reply)")
+  add("dhcp_ack_address_lists",
+      e4(u4(dhcp_msg(2, b'\x35\x01\x05\x03\x08' + A1 + A2 + b'\x04\x04' + ip4("10.0.0.3")
+                     + b'\x06\x0c' + ip4("10.0.0.4") + ip4("8.8.8.8") + ip4("8.8.4.4") + b'\x33\x04\x00\x00\x0e\x10\xff',
+                     yi=A2, si=A1, xid=0x3903f327), 67, 68), 17), "ethernet/ipv4/udp/dhcp(routers x2, time server, DNS x3)")
+  # RFC 3396 long options: one option code in several TLVs whose payloads a parser must concatenate (> 255 bytes in
+  # total), and the longest option a single TLV can carry.  The option next to the long one has the adjacent code,
+  # so a one-bit corruption of that code byte makes it one more piece of the long option.
+  dopt = lambda code, data: bytes([code, len(data)]) + data
+  dack = lambda opts: e4(u4(dhcp_msg(2, b'\x35\x01\x05\x36\x04' + A1 + b'\x33\x04\x00\x00\x0e\x10' + opts + b'\xff',
+                                     yi=A2, si=A1, xid=0x3903f328), 67, 68), 17)
+  add("dhcp_rfc3396_vendor_split", dack(dopt(42, A1) + dopt(43, pattern(200)) + dopt(43, pattern(56, 3))),
+      "ethernet/ipv4/udp/dhcp(NTP servers, vendor option split 200+56 = 256 bytes)")
+  dns65 = [ip4("10.1.%d.%d" % (i // 250, i % 250 + 1)) for i in range(65)]
+  add("dhcp_rfc3396_dns_split", dack(dopt(6, b''.join(dns65[:63])) + dopt(6, b''.join(dns65[63:])) + dopt(1, b'\xff\xff\xff\x00')),
+      "ethernet/ipv4/udp/dhcp(65 DNS servers split 252+8 bytes)")
+  add("dhcp_hostname_255", dack(dopt(12, b'h' * 255) + dopt(13, b'\x00\x20')),
+      "ethernet/ipv4/udp/dhcp(host name of 255 bytes in one TLV, boot file size)")
   q = dns_name("www.example.com")
   add("dns_query", e4(u4(struct.pack("!HHHHHH", 0xbeef, 0x0100, 1, 0, 0, 0) + q + struct.pack("!HH", 1, 1), 40000, 53), 17),
       "ethernet/ipv4/udp/dns(query)")
@@ -460,6 +494,10 @@ DHCP_OPTS = [
   [("msgtype", 3), ("request_ip", "10.0.0.7"), ("params", [1, 3, 6, 15]), ("raw", 61, b"\x01\x02\x11\x22\x33\x44\x55")],
   [("vendor", pattern(255))],                                       # longest single option
   [("errmsg", b"no")],
+  # every address-list option class in one message, different lengths (a parser must keep the lists apart)
+  [("routers", ["10.0.0.1", "10.0.0.2"]), ("timesrv", ["10.0.0.3"]), ("dns", ["10.0.0.4", "10.0.0.5", "10.0.0.6"]),
+   ("mask", "255.255.255.0"), ("bcast", "10.0.0.255"), ("lease", 3600)],
+  [("dns", ["8.8.8.8"]), ("routers", ["10.0.0.254"])],
 ]
 
 def _dhcp_options (P, opts):
@@ -471,6 +509,7 @@ def _dhcp_options (P, opts):
     elif k == "mask": out.append(D.DHCPSubnetMaskOption(o[1]))
     elif k == "routers": out.append(D.DHCPRoutersOption(o[1]))
     elif k == "dns": out.append(D.DHCPDNSServersOption(o[1]))
+    elif k == "timesrv": out.append(D.DHCPTimeServersOption(o[1]))
     elif k == "lease": out.append(D.DHCPIPAddressLeaseTimeOption(o[1]))
     elif k == "server": out.append(D.DHCPServerIdentifierOption(o[1]))
     elif k == "t1": out.append(D.DHCPRenewalTimeOption(o[1]))
